@@ -192,3 +192,49 @@ def crash_violations(cfg, crash_event, hard, crash_event2=-1, hard2=True):
 
 def crash_ok(cfg, crash_event, hard, crash_event2=-1, hard2=True, ignore=()):
     return [b for b in crash_violations(cfg, crash_event, hard, crash_event2, hard2) if b[0] not in ignore] == []
+
+
+# ---- C11 (resumed runs): row cursors of every stream after re-opening an existing file ----------------
+
+
+def resume_cursor_violations(data, c, v, f, tdm, na, nexc, step_offset, steps):
+    """create the per-molecule file like a fresh run would (real HDF5Writer.open/_create_new over the fake h5py), then
+    re-open it with resume=True at `step_offset` (real _open_resume) and compare every row cursor with the number of rows a
+    run up to that step has written: initial snapshot + multiples of the stream's own cadence <= step_offset."""
+    import types
+    import torch
+    import seqm.MolecularDynamics as MD
+
+    M.install()
+    M.ST.reset()
+    h5 = {}
+    for k, val in (("data", data), ("coordinates", c), ("velocities", v), ("forces", f), ("transition_density_matrices", tdm), ("nonadiabatic", na)):
+        if val:
+            h5[k] = val
+    out = {"molid": [0], "prefix": "/mem/r", "print every": 0, "checkpoint every": 0, "xyz": 0, "h5": h5}
+    cfg = MD.OutputConfig.from_dict(out)
+    mol, p = M.make_molecule(1)
+    mol.nocc = torch.tensor([1])
+    w1 = MD.HDF5Writer(cfg, p, 0.5)
+    w1.open(mol, "/mem/r", steps, excited_states=nexc, resume=False, step_offset=0, include_initial=True)
+    w1.close()
+    w2 = MD.HDF5Writer(cfg, p, 0.5)
+    try:
+        w2.open(mol, "/mem/r", steps, excited_states=nexc, resume=True, step_offset=step_offset, include_initial=False)
+    except RuntimeError as e:
+        return ["resume refused: %s" % e]
+    rows = lambda cad: (step_offset // cad + 1) if cad > 0 else 0
+    bad = []
+    exp = {"data": rows(data), "coordinates": rows(c), "velocities": rows(v), "forces": rows(f)}
+    if w2.i_data[0] != exp["data"]:
+        bad.append("data cursor %r, rows already written %d" % (w2.i_data[0], exp["data"]))
+    for k in ("coordinates", "velocities", "forces"):
+        if w2.i_vec[0][k] != exp[k]:
+            bad.append("%s cursor %r, rows already written %d" % (k, w2.i_vec[0][k], exp[k]))
+    if nexc > 0 and data > 0:
+        if w2.i_tdm[0] != rows(tdm):
+            bad.append("transition-density cursor %r, rows already written %d" % (w2.i_tdm[0], rows(tdm)))
+    if nexc > 0:
+        if w2.i_na[0] != rows(na):
+            bad.append("nonadiabatic cursor %r, rows already written %d" % (w2.i_na[0], rows(na)))
+    return bad
